@@ -5,6 +5,8 @@ from oracle.content import content, first_difference, note_text
 from oracle.norm import norm, norm_equiv
 from oracle import ddl
 
+THOROUGH_STRIDE = 2      # the registered thorough tier runs every 2nd instance of each family (vp_check.py --tier full runs all; the full set was run once: DESIGN 10.10)
+
 ASSUMPTIONS = [
     'text length per site bounded by K (quick K<=2..3, thorough K<=4); one text-bearing site symbolic per instance',
     'tabs are outside the text classes (parse_string expands tabs before matching: not DBML-expressible text)',
